@@ -58,7 +58,8 @@ def _check_one(b, m, names, d, u, t, sub, fa, res, route):
     if route == 0:
         r = b.quantify(u, set(sub), forall=fa)
     elif route == 1:
-        r = (b.forall if fa else b.exist)(list(sub), u)
+        # as a list, sometimes naming a variable twice
+        r = (b.forall if fa else b.exist)(list(sub) + list(sub[:len(sub) % 2]), u)
     elif route == 2:
         # apply: first operand's support gives the variables, second operand is the body
         sp = SPELL_Q[fa][len(sub) % 2]
